@@ -135,6 +135,9 @@ def _body(fn: ast.FunctionDef, params: list[str], fallible: bool) -> tuple[str, 
 #   <request var> | <request var> is [not] None                   -> hasRequest    (request var = CreateRequestCache lookup)
 #   <cache var>.packet_identifier ==/!= payload.identifier        -> identEq       (either operand order)
 #   <request var>.to_circuit_id ==/!= circuit_id|payload.circuit_id -> toCidEq
+# Control flow is normalised: `if c: A; return` + B, `if c: A else: B`, and the De-Morgan-inverted guard clause
+# `if not c: B; return` + A all yield the same path conditions; the relay branch is located by the statement that pops the
+# CreateRequestCache.
 # The path condition under which `self._ours_on_created_extended(...)` is reached (and, for on_created, the test of the
 # `if` that builds the RelayRoutes) is emitted as a Lean Bool function.  Anything else in a test -> TranslatorError.
 def _lookup_vars(fn: ast.FunctionDef) -> dict[str, str]:
@@ -210,6 +213,11 @@ def _is_ours(n: ast.Call) -> bool:
     return isinstance(n.func, ast.Attribute) and n.func.attr == "_ours_on_created_extended"
 
 
+def _is_pop_create(n: ast.Call) -> bool:
+    return isinstance(n.func, ast.Attribute) and n.func.attr == "pop" and "request_cache" in ast.unparse(n.func.value) \
+        and bool(n.args) and isinstance(n.args[0], ast.Name) and n.args[0].id == "CreateRequestCache"
+
+
 def _is_relayroute(n: ast.Call) -> bool:
     return isinstance(n.func, ast.Name) and n.func.id == "RelayRoute"
 
@@ -230,12 +238,21 @@ def translate_guards(ctree) -> str:
     extended_accepts = _path_condition(ex.body, _is_ours, vex)
     if created_accepts is None or extended_accepts is None:
         raise TranslatorError("_ours_on_created_extended is not called from on_created / on_extended")
-    pairs = None
-    for st in cr.body:
-        if isinstance(st, ast.If) and _contains_call(st.body, _is_relayroute):
-            pairs = _guard(st.test, vcr)
-    if pairs is None:
+    # entry of the relay branch = the statement that consumes the pending extend (`request_cache.pop(CreateRequestCache, …)`);
+    # its path condition is the pairing test whether the branch is written as `if pairs: RELAY; return` followed by OURS
+    # or, De-Morgan-inverted, as the guard clause `if not pairs: OURS; return` followed by RELAY at the top level
+    if not _contains_call(cr.body, _is_relayroute):
         raise TranslatorError("relay branch (RelayRoute construction) not found in on_created")
+    pconj = _path_condition(cr.body, _is_pop_create, vcr)
+    if pconj is None:
+        # no explicit pop: fall back to the test of the `if` that builds the RelayRoutes
+        for st in cr.body:
+            if isinstance(st, ast.If) and _contains_call(st.body, _is_relayroute):
+                pconj = [_guard(st.test, vcr)]
+    if not pconj:
+        raise TranslatorError("relay branch of on_created: pairing test not found (no guarded pop of the "
+                              "CreateRequestCache and no `if` around the RelayRoute construction)")
+    pairs = " && ".join(pconj)
     # which static key the originator binds: the arguments of the verify call in _ours_on_created_extended
     ours = fns["_ours_on_created_extended"]
     alias = {}
